@@ -875,18 +875,43 @@ impl Xot {
                 "Cannot replace document node".to_string(),
             ));
         }
-        // there should always be a parent as we're not document node
-        let parent = self.parent(replaced_node).unwrap();
-        // record previous sibling
-        let previous_node = self.previous_sibling(replaced_node);
+        let parent = self.parent(replaced_node).ok_or_else(|| {
+            Error::InvalidOperation("Cannot replace a node without a parent".to_string())
+        })?;
+        // validate everything before the replaced node is destroyed
+        self.add_structure_check(Some(parent), replacing_node)?;
+        if self.ancestors(replacing_node).any(|n| n == replaced_node) {
+            return Err(Error::InvalidOperation(
+                "Cannot replace a node with itself or one of its descendants".to_string(),
+            ));
+        }
+        // record previous sibling; an attribute or namespace node is replaced
+        // by a first child
+        let previous_node = if self.value(replaced_node).is_normal() {
+            self.previous_sibling(replaced_node)
+        } else {
+            None
+        };
         // remove the replaced node, use low-level remove_tree to avoid
         // text node reconciliation and document element detection
         replaced_node.get().remove_subtree(self.arena_mut());
-        // now insert the replacing node
-        if let Some(previous_node) = previous_node {
-            self.insert_after(previous_node, replacing_node)?;
-        } else {
-            self.prepend(parent, replacing_node)?;
+        // now insert the replacing node, unless it is already in place
+        if previous_node != Some(replacing_node) {
+            if let Some(previous_node) = previous_node {
+                self.insert_after(previous_node, replacing_node)?;
+            } else {
+                self.prepend(parent, replacing_node)?;
+            }
+        }
+        // close the seams around the replacing node, if it still exists
+        if !replacing_node.get().is_removed(self.arena()) {
+            let previous = self.previous_sibling(replacing_node);
+            let left = if self.remove_consolidate_text_nodes(previous, Some(replacing_node)) {
+                previous.unwrap()
+            } else {
+                replacing_node
+            };
+            self.remove_consolidate_text_nodes(Some(left), self.next_sibling(left));
         }
         Ok(())
     }
